@@ -14,6 +14,9 @@ fi
 mkdir -p /tmp/devroot/bin; ln -sfn ${VERIF_REPO:-/repo}/jobmanagers /tmp/devroot/jobmanagers; ln -sfn ${VERIF_REPO:-/repo}/adapters /tmp/devroot/adapters
 cd /verif/harness && export GOFLAGS=-mod=mod GOPROXY=off GOSUMDB=off GOTOOLCHAIN=local
 go test $MODFLAG -tags verif -c -o /tmp/devroot/bin/run.test ./props/run || exit 2
+# the binaries the E2 tests start, from the same tree
+for c in mrp mrjob mro; do (cd ${VERIF_REPO:-/repo} && go build -tags verif -o /tmp/devroot/bin/$c ./cmd/$c) || exit 2; done
+for c in stagebin dumpargs; do go build $MODFLAG -tags verif -o /tmp/devroot/bin/$c ./cmd/$c || exit 2; done
 rm -rf /tmp/devrun && mkdir -p /tmp/devrun
 for s in "$@"; do
   (cd /tmp/devrun && mkdir -p cwd$s && cd cwd$s && VERIF_LEVEL=$L VERIF_WORK=/dev/shm/devrun/work$s timeout 1500 /tmp/devroot/bin/run.test -test.run "$T" -rapid.checks=$N -rapid.seed=$s -rapid.shrinktime=60s > /tmp/devrun/log$s 2>&1; echo "seed $s rc=$?" >> /tmp/devrun/done) &
